@@ -981,8 +981,18 @@ class Walker:
             path.blocks.append(bb)
             wh = getattr(self, 'widen_headers', None)
             if wh and bb in wh:
+                ctx = None
                 for l in self.widen_assigned[bb]:
                     prev = self.as_value(env, self.read_key(env, (l, ())))
+                    if body.lty(l) == 'core::option::Option<usize>':
+                        # a loop-carried optional position: remember where the loop's usize cursors stood on entry, so that a
+                        # bound "payload >= cursor c at the start of its iteration" can be related to the caller's frame
+                        if ctx is None:
+                            ctx = tuple((c, self.as_value(env, self.read_key(env, (c, ())))) for c in sorted(self.widen_assigned[bb]) if body.lty(c) == 'usize')
+                        for k in [k for k in env if k[0] == l]:
+                            del env[k]
+                        env[(l, ())] = ('widen', body.path, bb, l, prev, ctx)
+                        continue
                     for k in [k for k in env if k[0] == l]:
                         del env[k]
                     env[(l, ())] = ('widen', body.path, bb, l, prev)
